@@ -604,6 +604,8 @@ def oracle_c07_expand(cid, impl, m):
     """Internal consumer of the pagination (expand): every child of every page exactly once - the
     implementation's tree is the model's tree (which lists every stored tuple of a node once), no subject
     set is expanded twice, nothing reachable is missing when no depth cut happened."""
+    if impl.get("x_fault_swallowed"):
+        return ("c07-internal-page-error-swallowed", "expand (internal page loop): " + impl["x_fault_swallowed"])
     v = oracle_c09(cid, impl, m)
     if v is None or v is True:
         return v
